@@ -1069,6 +1069,8 @@ def r_extension_dispatch(repo, rep, R='R15.7'):
             for x in subterms(t0):
                 if x[0] == 'call' and x[1][0] == 'attr' and x[1][2] in ('splitext',):
                     uses_split = True
+                if x[0] == 'attr' and x[2] == 'suffix' and x[1][0] == 'call' and (x[1][1] == N('Path') or (x[1][1][0] == 'attr' and x[1][1][2] in ('Path', 'PurePath'))):
+                    uses_split = True           # pathlib: Path(name).suffix is the last suffix only, like os.path.splitext
                 if x[0] == 'cmp' and x[1] == '==' and any(y[0] == 'call' and y[1][0] == 'attr' and y[1][2] == 'splitext' for z in x[2:] for y in subterms(z)):
                     for z in x[2:]:
                         if z[0] == 'const' and isinstance(z[1], str):
@@ -1122,6 +1124,8 @@ def r_extension_dispatch_text(repo, rep, R, reader):
             for x in subterms(t0):
                 if x[0] == 'call' and x[1][0] == 'attr' and x[1][2] in ('splitext',):
                     uses_split = True
+                if x[0] == 'attr' and x[2] == 'suffix' and x[1][0] == 'call' and (x[1][1] == N('Path') or (x[1][1][0] == 'attr' and x[1][1][2] in ('Path', 'PurePath'))):
+                    uses_split = True           # pathlib: Path(name).suffix is the last suffix only, like os.path.splitext
         for c in all_calls(st):
             f = c[1]
             nm = f[1] if f[0] == 'name' else (f[1] if f[0] == 'func' else None)
